@@ -2,7 +2,7 @@
 import vlib
 from props import recfam, sysfam
 
-INV = ['C06_Linear', 'C06_Steps', 'C06_LinearAnyFloat', 'C06_StepsAnyFloat', 'C06_Graph', 'C06_Pid', 'C06_PidRange']
+INV = ['C06_Linear', 'C06_Steps', 'C06_LinearAnyFloat', 'C06_StepsAnyFloat', 'C06_Graph', 'C06_Pid', 'C06_PidRange', 'C06_PidSaturates']
 
 
 def check(run):
